@@ -137,6 +137,11 @@ def random_layout(rng, levels, kind=None):
             if n >= 2:
                 lay[0][0], lay[-1][0] = 1, 0
         # file numbers used must be dense enough to be distinct names only; any set is fine
+        if k in ("files", "scatter") and rng.random() < 0.25:
+            # file numbers with more digits than the usual five (Cell_D_100000 next to Cell_D_10000 and Cell_D_99999)
+            big = [10000, 99999, 100000, 100001, 1234567]
+            rng.shuffle(big)
+            lay = [[big[f % len(big)], key] for f, key in lay]
         out.append(lay)
     return out
 
@@ -248,6 +253,12 @@ def box_data(spec, lv, bid, k):
     """payload of field k of box bid at level lv, shape (nx, ny[, nz]); with data.covered_fill in {"nan", "inf", "mix"} the
     cells lying under a box of the next level hold non-finite filler (their values must never be used when that level is selected)"""
     out = _box_data(spec, lv, bid, k)
+    if spec["data"].get("zero_boxes") and lv >= 1 and (bid + k + lv) % 2 == 0:
+        # a box on which the field vanishes identically (+0.0 or -0.0) lying over non-zero coarser data
+        out = np.full(np.shape(out), [0.0, -0.0][(bid + lv) % 2])
+    fs = spec["data"].get("field_scale")
+    if fs:
+        out = np.asarray(out, dtype="float64") * fs[k % len(fs)]      # fields of very different magnitudes side by side
     fill = spec["data"].get("covered_fill")
     if fill and lv + 1 < len(spec["levels"]):
         lo, hi = spec["levels"][lv][bid]
